@@ -40,6 +40,9 @@ type ListLit struct{ Items []Expr }
 type DictLit struct {
 	Keys []string
 	Vals []Expr
+	// Bare - Bare[i]: key i is written as a bare identifier or number (its text is the key)
+	// instead of a text literal; may be shorter than Keys (missing = text literal)
+	Bare []bool
 }
 type Index struct{ Root, Idx Expr }
 type Member struct {
